@@ -2,14 +2,14 @@
     Property theorems only (the proofs are short unfoldings and are given here). *)
 From Coq Require Import List ZArith NArith String Bool Lia.
 Import ListNotations.
-Require Import AvraV.Model.Base AvraV.Model.Ast AvraV.Model.Device AvraV.Model.Eval AvraV.Model.Parse AvraV.Model.Passes.
+Require Import AvraV.Model.Fs AvraV.Model.Base AvraV.Model.Ast AvraV.Model.Device AvraV.Model.Eval AvraV.Model.Parse AvraV.Model.Passes.
 Require Import AvraV.Gen.Devices AvraV.Gen.IncParts.
 Open Scope N_scope.
 
 (** what the passes produced *)
 Definition passes (fuel : nat) (inc : str -> pstate -> res pstate) (st : pstate) : res (pstate * p1 * p2) :=
   do s0 <- pass0 fuel inc (macros st) 64 (non_empty (segs st))
-             {| segs := []; macro_name := []; macros := []; msgs := msgs st; pcx := pcx st |};
+             {| segs := []; macro_name := []; macros := []; msgs := msgs st; pcx := pcx st; fl := fl_empty |};
   do r1 <- pass1 (pcx s0) (non_empty (segs s0));
   do r2 <- pass2 fuel (p1_ctx r1) (p1_segs r1);
   Ok (s0, r1, r2).
